@@ -123,3 +123,24 @@ def flush_after_append(cls):
             if any((i.lineno, i.col_offset) < (z.lineno, z.col_offset) for i in incs):
                 bad.append((f, z))
     return bad
+
+
+def reset_discipline(model, rel):
+    """Calls <encoder>.reset() outside the Encoder class discard what was encoded so far.  That is only
+    sound when nothing but the OPTIONAL/DEFAULT preamble was written, i.e. under a test that compares the
+    encoder's bit count with the size of that preamble; deciding on `are_all_bits_zero()` alone would
+    also discard members whose encoding happens to be all zero bits (FALSE, 0, first enumeration item).
+    -> [(function, call, ok, why)]"""
+    m = model.mod(rel)
+    out = []
+    for f in [n for n in ast.walk(m.tree) if isinstance(n, ast.FunctionDef)]:
+        if getattr(f, '_cls', None) is not None and f._cls.name in ('Encoder', 'Decoder'):
+            continue
+        for c in walk_no_nested(f):
+            if isinstance(c, ast.Call) and isinstance(c.func, ast.Attribute) and c.func.attr == 'reset' and not c.args \
+                    and isinstance(c.func.value, ast.Name) and 'encoder' in c.func.value.id:
+                enc = c.func.value.id
+                gs = [ast.unparse(t) for t, pol in flow.guards_of(c, f) if pol]
+                ok = any(('%s.number_of_bits' % enc) in g and ('==' in g or '<=' in g) for g in gs)
+                out.append((f, c, ok, ' && '.join(gs)))
+    return out
